@@ -88,3 +88,24 @@ fn k_derive_enums_generics_nested() {
         core::mem::forget(cx);
     }
 }
+
+// ---- recursive shapes: a type whose only arena pointers point to its own type (list node, expression tree) - NEEDS_TRACE of a recursive
+// type must not be short-circuited to false, and the self-typed fields are traced like any other
+#[derive(crate::Collect)] #[collect(no_drop)] struct Node<'gc> { v: u8, next: Option<Gc<'gc, Node<'gc>>> }
+#[derive(crate::Collect)] #[collect(no_drop)] enum Expr<'gc> { Leaf(u8), Neg(Gc<'gc, Expr<'gc>>), Add(Gc<'gc, Expr<'gc>>, Gc<'gc, Expr<'gc>>) }
+#[kani::proof]
+#[kani::unwind(6)]
+fn k_derive_recursive_types() {
+    unsafe {
+        let cx = Context::new(); let mc = cx.mutation_context();
+        let tail = Gc::new(mc, Node { v: 1, next: None });
+        let head = Node { v: 0, next: Some(tail) };
+        let mut r = Rec::new(); head.trace(&mut r);
+        assert!(eq(&r, &[a(tail)], &[]), "[trace] a field of the deriving type's own type is traced");
+        let l = Gc::new(mc, Expr::Leaf(1)); let n = Gc::new(mc, Expr::Neg(l));
+        let mut r = Rec::new(); Expr::Add(l, n).trace(&mut r);
+        assert!(eq(&r, &[a(l), a(n)], &[]), "[trace] recursive enum: both children");
+        assert!(nt::<Node>() && nt::<Expr>(), "[trace] NEEDS_TRACE of a recursive type is true when its self-typed fields hold pointers");
+        core::mem::forget(cx);
+    }
+}
